@@ -58,7 +58,8 @@ try:
     env_p = dict(os.environ, PYTHONPATH=wt)
     env_o = dict(os.environ, PYTHONPATH='/repo')
     r0 = sh(f'cd /repo && /venv/bin/python {demo}', env=env_o, timeout=600)
-    r1 = sh(f'cd {wt} && /venv/bin/python {demo}', env=env_p, timeout=600)
+    # (run from <worktree>/out/: some demonstrations put their own '..' first on sys.path)
+    r1 = sh(f'mkdir -p {wt}/out && cp {demo} {wt}/out/_demo.py && cd {wt} && /venv/bin/python out/_demo.py', env=env_p, timeout=600)
     meta['demo_on_repo'] = r0.returncode
     meta['demo_on_patched'] = r1.returncode
     print(f'demo: unmodified exit {r0.returncode}, patched exit {r1.returncode}')
